@@ -271,3 +271,27 @@ Definition index_case (h : list (iop nat)) (cls : nat) (observed : list (list na
   | Hang => cls =? 1
   | Panic => cls =? 2
   end.
+
+(** the whole bookkeeping after every operation: (nextID, pendingAdditionsPos, status = fresh,
+    len(shapes), ids in the cell map), against VerifC13IndexState on the real index *)
+Definition istate_obs (ix : index nat nat) : nat * nat * bool * nat * list nat :=
+  (nextID ix, pendingPos ix, status_eqb (st ix) Fresh, length (shapes ix), map fst (cells ix)).
+Fixpoint itrace (ix : index nat nat) (h : list (iop nat)) : list (nat * nat * bool * nat * list nat) :=
+  match h with
+  | [] => []
+  | o :: r => match istep (apply (fun s => s)) index_reset ix o with
+              | Ok (ix', _) => istate_obs ix' :: itrace ix' r
+              | _ => []
+              end
+  end.
+Definition istate_eqb (a b : nat * nat * bool * nat * list nat) : bool :=
+  let '(n1, p1, f1, l1, c1) := a in let '(n2, p2, f2, l2, c2) := b in
+  (n1 =? n2) && (p1 =? p2) && Bool.eqb f1 f2 && (l1 =? l2) && list_nat_eqb c1 c2.
+Fixpoint istates_eqb (a b : list (nat * nat * bool * nat * list nat)) : bool :=
+  match a, b with
+  | [], [] => true
+  | x :: a', y :: b' => istate_eqb x y && istates_eqb a' b'
+  | _, _ => false
+  end.
+Definition index_trace_case (h : list (iop nat)) (observed : list (nat * nat * bool * nat * list nat)) : bool :=
+  istates_eqb (itrace index_new h) observed.
